@@ -797,6 +797,11 @@ fn gen_server(repo: &Path, g: &mut Gen) -> R<()> {
     let _ = hs;
     let body: String = fns.values().map(|b| quote::quote!(#b).to_string()).collect::<Vec<_>>().join(" ");
     let _ = writeln!(s, "/-- does `handle_stream` compare the topic's pattern with the registration before acknowledging? -/\ndef checksPattern : Bool := {}", body.contains("is_pubsub ()") && body.contains("TOPIC_PATTERN_MISMATCH"));
+    // the acknowledgement of a registration: handed to the stream with `send` (which flushes) by the handler itself, so that the
+    // peer has its answer whatever the topic's router is doing - or merely fed into the write buffer and left for whoever owns
+    // the sink next to flush?
+    let ack_flushed = !body.contains(". feed (");
+    let _ = writeln!(s, "/-- {sv_rel}: registration answers (Ok / Error) are written with `send` (feed + flush) by the handler itself; no frame is merely `feed`-ed and left for the router to flush -/\ndef ackFlushedByHandler : Bool := {ack_flushed}");
     g.emit("Server", &[ps_rel, rr_rel, sv_rel, codes_rel], &s);
     Ok(())
 }
